@@ -94,7 +94,8 @@ def as_counts(y, spec):
     """records stored as INTEGER ADC counts (dtype and peak value of the case), otherwise unchanged floats."""
     if not spec.get("idtype"):
         return y
-    return np.round(y * (spec["peak"] / np.max(np.abs(y)))).astype(spec["idtype"])
+    # unsigned raw A/D counts sit around a mid-scale offset (e.g. 2048 for 12 bit)
+    return (np.round(y * (spec["peak"] / np.max(np.abs(y)))) + spec.get("offset", 0)).astype(spec["idtype"])
 
 
 def keep_dtype(d):
@@ -215,12 +216,19 @@ def run_alg(spec, inp, fs, kf, hold=None, reuse=None, same_setup=False):
         return dict(exc="run:" + type(e).__name__)
     try:
         sel = [float(f) * kf for f in spec["sel"]]
+        order = None
+        if fam in ("SSI", "pLSCF"):
+            # the request list may carry a frequency that has NO pole (mid-way between two modes): which requests are served and
+            # how many modes come back must not depend on the time unit; order given as one int or as a per-mode list
+            sel = [float(f) * kf for f in spec.get("sel_req", spec["sel"])]
+            o0 = P["order"] if fam == "SSI" else P["porder"]
+            order = [max(1, o0 - (i % 2)) for i in range(len(sel))] if P.get("order_mode") == "list" else o0
         if fam == "FDD":
             st.mpe("a", sel_freq=sel, DF=P["DF"] * kf)
         elif fam == "EFDD":
             st.mpe("a", sel_freq=sel, DF1=P["DF"] * kf, DF2=P["DF2"] * kf, cm=1, MAClim=P["MAClim"], sppk=P["sppk"], npmax=P["npmax"])
         else:
-            st.mpe("a", sel_freq=sel, order=P["order"] if fam == "SSI" else P["porder"], rtol=P["rtol"])
+            st.mpe("a", sel_freq=sel, order=order, rtol=P["rtol"])
     except Exception as e:  # noqa: BLE001
         out["mpe_exc"] = type(e).__name__
     r = a.result
@@ -825,6 +833,9 @@ def run_case(spec):
         fs0 = spec["fs"]
         spec = dict(spec)
         spec["sel"] = [float(f) * fs0 for f in d["fr"][: spec.get("nsel", len(d["fr"]))]]
+        if spec["P"].get("sel_extra") and len(d["fr"]) >= 2:
+            # one more request, placed mid-way between the two lowest modes (>= 0.05 cycles/sample apart): usually no pole there
+            spec["sel_req"] = [spec["sel"][0], 0.5 * (spec["sel"][0] + spec["sel"][1])] + spec["sel"][1:]
         rec.spec = {k: v for k, v in spec.items()}
         if spec["setup"] == "single":
             base_inp = dict(data=d["data"])
@@ -884,6 +895,9 @@ def params_for(rng, alg, tier, l_eff, nref_eff, nmodes, v):
     fam = family(alg)
     P = dict(hc=dict(HC_DEFAULT), sc=dict(SC_DEFAULT), rtol=5e-2)
     P["method_SD"] = ("per", "cor")[v % 2]
+    if fam in ("SSI", "pLSCF"):
+        P["order_mode"] = ("int", "list")[(v // 2) % 2 if tier != "I" else v % 2]
+        P["sel_extra"] = (v % 3 != 2)
     P["nxseg"] = int(rng.choice([64, 96, 128]))
     P["pov"] = float(rng.choice([0.5, 0.25, 0.0]))
     P["DF"] = 0.04  # in units of fs0 = 1 ... rescaled by the caller
@@ -954,7 +968,7 @@ def gen_cases(ctx, tier, per_alg):
                     ks = [int(x) for x in rng.choice([-20, -12, -6, -2, 2, 4, 10, 16, 24], size=2, replace=False)]
                 else:
                     ks = [int(x) for x in rng.choice([-20, -11, -6, -3, -1, 1, 2, 5, 10, 17, 24], size=2, replace=False)]
-                kf = [int(x) for x in rng.choice([-6, -4, -2, 2, 4, 6], size=2, replace=False)]
+                kf = [int(x) for x in rng.choice([-4, -2, 2, 4], size=1)] + [(-6, 6)[v % 2]]   # always one end of 4^-3 ... 4^3
                 # the two ends of the gain range [1e-6, 1e6] ALWAYS, on every class variant and record amplitude, plus one more
                 # reuse=True: the SAME algorithm object (already run and queried on the untransformed setup) is attached to the second
                 # setup and run again; rerun: run twice on the same setup
@@ -968,7 +982,7 @@ def gen_cases(ctx, tier, per_alg):
                 sg = -1.0 if rng.random() < 0.5 else 1.0
                 k2 = float(10 ** rng.uniform(-2, 2))
                 spec["transforms"] = [dict(t="gain", g=1e-6 * sg), dict(t="gain", g=-1e6 * sg, reuse=True), dict(t="gain", g=g), dict(t="fs", k=k),
-                                      dict(t="fs", k=k2, reuse=True), dict(t="rerun", reuse=True),
+                                      dict(t="fs", k=k2, reuse=True), dict(t="fs", k=0.01), dict(t="fs", k=100.0), dict(t="rerun", reuse=True),
                                       dict(t="perm", seed=int(rng.integers(1, 2**31))), dict(t="mix", seed=int(rng.integers(1, 2**31)))]
                 if ref is not None:
                     spec["transforms"] += [dict(t="perm", seed=int(rng.integers(1, 2**31)), neg=True), dict(t="refform", form="reversed"),
@@ -991,14 +1005,21 @@ def gen_int_cases(ctx, per_alg):
             # scipy.signal.csd promotes int16 input to SINGLE precision (result_type(int16, complex64) = complex64): the spectral classes
             # then work at ~1e-7 and the float image of the record is reproduced to that accuracy only - int16 is kept for the
             # time-domain (SSI) classes, the spectral ones get int32 / int64
-            if family(alg) == "SSI":
-                idtype, peak = [("int32", 2000), ("int16", 2000), ("int64", 30000), ("int32", 30000), ("int16", 2000), ("int64", 2000)][k % 6]
+            # ... and likewise uint8 / uint16; even variants signed, odd variants UNSIGNED raw counts around a mid-scale offset
+            offset = 0
+            if v % 2 == 0:
+                if family(alg) == "SSI":
+                    idtype, peak = [("int32", 2000), ("int16", 2000), ("int64", 30000), ("int32", 30000), ("int16", 2000), ("int64", 2000)][k % 6]
+                else:
+                    idtype, peak = [("int32", 2000), ("int64", 30000), ("int32", 30000), ("int64", 2000)][k % 4]
+            elif family(alg) == "SSI":
+                idtype, peak, offset = [("uint16", 2000, 2048), ("uint8", 20, 25), ("uint32", 30000, 32768), ("uint16", 1500, 2048)][k % 4]
             else:
-                idtype, peak = [("int32", 2000), ("int64", 30000), ("int32", 30000), ("int64", 2000)][k % 4]
+                idtype, peak, offset = [("uint32", 30000, 32768), ("uint32", 2000, 2048)][k % 2]
             k += 1
             nmodes = int(rng.integers(2, 4))
             spec = dict(id="I-%s-%d" % (alg, v), tier="I", alg=alg, setup="single" if single else "multi", seed=int(rng.integers(1, 2**31)), nmodes=nmodes,
-                        kind="random", idtype=idtype, peak=peak, amp=1.0, fs=float(rng.choice([10.0, 100.0, 256.0])), N=int(rng.choice([5000, 8000, 12000])),
+                        kind="random", idtype=idtype, peak=peak, offset=offset, amp=1.0, fs=float(rng.choice([10.0, 100.0, 256.0])), N=int(rng.choice([5000, 8000, 12000])),
                         noise=float(rng.choice([0.02, 0.1, 0.3])))
             if family(alg) in ("FDD", "EFDD"):
                 spec["band"] = (0.15, 0.42)
@@ -1020,7 +1041,7 @@ def gen_int_cases(ctx, per_alg):
             spec["P"] = P
             exact2 = "dat" not in alg
             spec["transforms"] = [dict(t="asfloat", cmp="A"), dict(t="igain", g=4, cmp="A"), dict(t="igain", g=2, cmp="A" if exact2 else "B"),
-                                  dict(t="igain", g=5, cmp="B"), dict(t="igain", g=-3, cmp="B")]
+                                  dict(t="igain", g=5, cmp="B"), dict(t="igain", g=-3 if offset == 0 else 3, cmp="B")]
             cases.append(spec)
     return cases
 
@@ -1231,9 +1252,10 @@ def probe_int(ctx):
     for path in sorted(glob.glob(os.path.join(VERIF, "corpus", "C08", "*.json"))):
         for r_ in json.load(open(path)).get("build_hank_records", []):
             recs.append((r_["dtype"], np.array(r_["Y"], dtype=r_["dtype"]), int(r_["br"])))
-    for dt_, peak, N in (("int16", 2000, 6000), ("int32", 2000, 12000), ("int32", 30000, 6000), ("int64", 30000, 8000)):
+    for dt_, peak, N, off in (("int16", 2000, 6000, 0), ("int32", 2000, 12000, 0), ("int32", 30000, 6000, 0), ("int64", 30000, 8000, 0),
+                              ("uint16", 2000, 6000, 2048), ("uint8", 20, 5000, 25), ("uint32", 30000, 6000, 32768)):
         y = rng.standard_normal((3, N))
-        recs.append((dt_, np.round(y * peak / np.abs(y).max()).astype(dt_), 3))
+        recs.append((dt_, (np.round(y * peak / np.abs(y).max()) + off).astype(dt_), 3))
     for method in ("cov_mm", "cov_R", "dat"):
         for dt_, y, br in recs:
             yr = y[:2] if y.shape[0] > 2 else y
@@ -1242,7 +1264,7 @@ def probe_int(ctx):
             ctx.count(case)
             Hf = ssi.build_hank(y.astype(float), yr.astype(float), br, method)[0]
             what = None
-            for g in (1, 2, -3):
+            for g in ((1, 2, 3) if y.dtype.kind == "u" else (1, 2, -3)):
                 yi, yri = y * y.dtype.type(g), yr * yr.dtype.type(g)
                 if not np.array_equal(yi.astype(float), y.astype(float) * g):
                     continue  # outside the dtype's range
@@ -1318,7 +1340,7 @@ def run(ctx):
     attrib = probe_cor(ctx)
     attrib_int = probe_int(ctx)
     model_side(ctx)
-    cases = corpus + expand_mix(gen_cases(ctx, "A", ctx.n(6, 48)) + gen_cases(ctx, "B", ctx.n(6, 48))) + gen_int_cases(ctx, ctx.n(1, 6))
+    cases = corpus + expand_mix(gen_cases(ctx, "A", ctx.n(6, 48)) + gen_cases(ctx, "B", ctx.n(6, 48))) + gen_int_cases(ctx, ctx.n(2, 6))
     for sp in cases:
         sp["attrib_cor"] = bool(attrib)
         sp["attrib_int"] = list(attrib_int)
